@@ -22,6 +22,18 @@ fn decode(t: &mut Tape) -> OpCase {
     if !o.is_mul && amt::is_zero(b) {
         b = amt::one();
     }
+    // one case in four continues with a walk of 1-4 more steps through the
+    // derivation graph (the units of the intermediate results are chosen by
+    // the implementation, not by the generator)
+    let mut chain = vec![];
+    let n_steps = if t.bool(1, 4) { 1 + t.below(4) } else { 0 };
+    for _ in 0..n_steps {
+        let mut x = gen_amount(t, Dom::Moderate);
+        if amt::is_zero(x) {
+            x = amt::one();
+        }
+        chain.push(ChainStep { pick: t.below(64), unit: t.below(64), amount: amt::key(x), form: t.below(4) as u8 });
+    }
     OpCase {
         op,
         form,
@@ -30,6 +42,7 @@ fn decode(t: &mut Tape) -> OpCase {
         a: amt::key(a),
         b: amt::key(b),
         note: describe(o, ua, ub, a, b),
+        chain,
     }
 }
 
@@ -156,10 +169,45 @@ pub fn check(case: &OpCase) -> Verdict {
             }
         }
     }
+    // walk through the derivation graph
+    let mut steps_done = 0;
+    if kind == "ok" && !case.chain.is_empty() {
+        let mut cur = r;
+        let mut cur_ty = o.r;
+        for st in &case.chain {
+            let conts = continuations(cur_ty);
+            if conts.is_empty() {
+                break;
+            }
+            let (oi, cur_is_left) = conts[st.pick % conts.len()];
+            let no = &c.ops[oi];
+            let other_ty = if cur_is_left { no.b } else { no.a };
+            let Some(x) = amt::from_key(&st.amount) else { break };
+            if !amt::is_finite(x) || amt::is_zero(x) || !amt::is_finite(cur.0) {
+                break;
+            }
+            if !no.is_mul && cur_is_left == false && amt::is_zero(cur.0) {
+                break; // the running value would be a zero divisor
+            }
+            let other = (x, st.unit % c.ty(other_ty).n_units);
+            let (qa2, qb2) = if cur_is_left { (cur, other) } else { (other, cur) };
+            match apply_and_check(oi, st.form % 4, qa2, qb2) {
+                Ok((nr, "ok", _)) => {
+                    cur = nr;
+                    cur_ty = no.r;
+                    steps_done += 1;
+                }
+                Ok(_) => break,
+                Err(Verdict::Fail(m)) => return Verdict::Fail(format!("{} [step {} of a chain starting with {}]", m, steps_done + 1, case.note)),
+                Err(_) => break,
+            }
+        }
+    }
     let refs = c.models[o.a].ref_row == Some(case.ua) && c.models[o.b].ref_row == Some(case.ub);
     let trivial = refs || amt::is_zero(a) || amt::is_zero(b) || (amt::same(a, amt::one()) && amt::same(b, amt::one()));
     let krate = c.models[o.r].row.krate;
-    pass(format!("{}/{}{}", krate, kind, extra), !trivial)
+    let chain_tag = if steps_done > 0 { format!("+chain{}", steps_done) } else { String::new() };
+    pass(format!("{}/{}{}{}", krate, kind, extra, chain_tag), !trivial)
 }
 
 impl Property for C04 {
@@ -167,10 +215,10 @@ impl Property for C04 {
         "C04"
     }
     fn rule(&self) -> String {
-        "proptest draws (operator instance out of the 34 catalogue + 4 astronomical + 14 synthetic ones generated from the derivation tables, owned/borrowed form, operand units, finite amounts, non-zero divisor). Oracle: the stored result amount against exact (a*S(ua)) op (b*S(ub)) / S(result unit) with S from the independent table and the rounding budget of DESIGN.md 3.2; the declared result type is enforced at compile time by ascription in the facade; all four owned/borrowed forms must give identical results; the commuted product and the multiply-then-divide / divide-then-multiply sequence through the inverse instance are checked step by step with the same oracle plus an end-to-end bound. Non-trivial: not both operands in reference units, amounts not 0 and not both 1; distinct by full case".into()
+        "proptest draws (operator instance out of the 34 catalogue + 4 astronomical + 14 synthetic ones generated from the derivation tables, owned/borrowed form, operand units, finite amounts, non-zero divisor). Oracle: the stored result amount against exact (a*S(ua)) op (b*S(ub)) / S(result unit) with S from the independent table and the rounding budget of DESIGN.md 3.2; the declared result type is enforced at compile time by ascription in the facade; all four owned/borrowed forms must give identical results; the commuted product and the multiply-then-divide / divide-then-multiply sequence through the inverse instance are checked step by step with the same oracle plus an end-to-end bound. One case in four continues as a walk of up to 4 further operator applications through the derivation graph (the running value's unit is whatever the implementation chose), each step checked by the same oracle. Non-trivial: not both operands in reference units, amounts not 0 and not both 1; distinct by full case".into()
     }
     fn tape_len(&self) -> usize {
-        18
+        60
     }
     fn cases(&self, tier: Tier) -> u64 {
         match tier {
